@@ -13,6 +13,9 @@ import (
 type SrcCase struct {
 	Src string `json:"src"`
 	Pre int    `json:"pre,omitempty"` // > 0: the expression's file follows a file of that many bytes
+	// Fresh: the grammar is constructed for this case (a program that builds parsers as it goes);
+	// otherwise one grammar value serves every case of the process
+	Fresh bool `json:"fresh,omitempty"`
 }
 
 func (c *SrcCase) Describe() string {
@@ -29,12 +32,21 @@ func checkC05(ci interface{}, st *Stats) error {
 	if c.Pre > 0 {
 		st.Class("file placed after another file")
 	}
-	return checkArithAt(c.Src, c.Pre, st)
+	if c.Fresh {
+		st.Class("grammar constructed for the case")
+	} else {
+		st.Class("grammar value shared with earlier cases")
+	}
+	return checkArithAt(c.Src, c.Pre, st, c.Fresh)
 }
 
 func checkArith(s string, st *Stats) error { return checkArithAt(s, 0, st) }
 
-func checkArithAt(s string, pre int, st *Stats) error {
+func checkArithAt(s string, pre int, st *Stats, fresh ...bool) error {
+	p := arithP
+	if len(fresh) > 0 && fresh[0] {
+		p = arithParser()
+	}
 	want, werr := refEval(s)
 	if st != nil {
 		switch {
@@ -63,7 +75,7 @@ func checkArithAt(s string, pre int, st *Stats) error {
 				panic(r)
 			}
 		}()
-		got, gerr = parsley.Evaluate(ctx, arithP)
+		got, gerr = parsley.Evaluate(ctx, p)
 	}()
 	if stopped >= 0 {
 		return fmt.Errorf("Evaluate was stopped after %d parser calls on a %d-byte expression (bound %d; about %d would be normal): it does not return a value or an error in any reasonable amount of work", stopped, len(s), limit, 3*len(s)*len(s)+100)
@@ -159,7 +171,7 @@ func init() {
 			if rapid.IntRange(0, 4).Draw(t, "placed") == 2 {
 				pre = rapid.SampledFrom([]int{1, 2, 5, 20, 300, 65536}).Draw(t, "pre")
 			}
-			return &SrcCase{Src: s, Pre: pre}
+			return &SrcCase{Src: s, Pre: pre, Fresh: rapid.Bool().Draw(t, "fresh")}
 		},
 		Check: checkC05,
 	})
